@@ -1218,6 +1218,53 @@ def i_DIV(i, fmap):
     fmap[m] = lo
 
 
+def i_XADD(i, fmap):
+    fmap[rip] = fmap[rip] + i.length
+    op1, op2 = i.operands
+    a = fmap(op1)
+    b = fmap(op2)
+    x, carry, overflow = AddWithCarry(a, b)
+    fmap[pf] = parity8(x[0:8])
+    fmap[af] = halfcarry(a, b)
+    fmap[zf] = x == 0
+    fmap[sf] = x.bit(-1)
+    fmap[cf] = carry
+    fmap[of] = overflow
+    op2, a = _r32_zx64(op2, a)
+    fmap[op2] = a
+    op1, x = _r32_zx64(op1, x)
+    fmap[op1] = x
+
+
+def i_IDIV(i, fmap):
+    fmap[rip] = fmap[rip] + i.length
+    src = i.operands[0]
+    m, d = {8: (al, ah), 16: (ax, dx), 32: (eax, edx), 64: (rax, rdx)}[src.size]
+    n_ = fmap(composer([m, d])).signed()
+    s_ = fmap(src).signextend(n_.size).signed()
+    q_ = n_ / s_
+    r_ = n_ % s_
+    d, hi = _r32_zx64(d, r_[0 : src.size])
+    fmap[d] = hi
+    m, lo = _r32_zx64(m, q_[0 : src.size])
+    fmap[m] = lo
+
+
+def i_LAHF(i, fmap):
+    fmap[rip] = fmap[rip] + i.length
+    fmap[ah] = fmap(composer([cf, bit1, pf, bit0, af, bit0, zf, sf]))
+
+
+def i_SAHF(i, fmap):
+    fmap[rip] = fmap[rip] + i.length
+    x = fmap(ah)
+    fmap[cf] = x[0:1]
+    fmap[pf] = x[2:3]
+    fmap[af] = x[4:5]
+    fmap[zf] = x[6:7]
+    fmap[sf] = x[7:8]
+
+
 def i_RDRAND(i, fmap):
     fmap[rip] = fmap[rip] + i.length
     dst = i.operands[0]
